@@ -535,7 +535,9 @@ def run_case(case):
 
     hook_fail = hk['fail']
     fails, body, overridden = predict(prog['node'], prog['errh'], route)
-    if prog['action'] == 'exc' or hook_fail:
+    # the handler's own exception counts only when the handler is reached (a routed request); an unrouted or
+    # wrong-method request with the same handler program is a plain 404 / 405
+    if (prog['action'] == 'exc' and route == 'normal') or hook_fail:
         fails, body, overridden = failure(prog['errh'])
     if fails and not overridden and x.code != 500:
         return fail('F.failure_is_500', **obs)
